@@ -1,6 +1,6 @@
 (* C15 driver: runs the same operation lines as harness/C15/nametab.c on the
    extracted model and prints the same canonical text.
-   usage: driver <cfgbits>   (9 chars 0/1: delref hide affix delmeta rencache renref spec parent malias)
+   usage: driver <cfgbits>   (2 chars 0/1: derefclear rendup -- repairs proposed but not yet in /repo)
    extra output per step (lines starting with "i "): the model's invariant bits. *)
 open Model
 
@@ -69,10 +69,9 @@ let dump st =
 let b2 b = if b then 1 else 0
 
 let () =
-  let bits = if Array.length Sys.argv > 1 then Sys.argv.(1) else "000000000" in
+  let bits = if Array.length Sys.argv > 1 then Sys.argv.(1) else "00" in
   let g i = i < String.length bits && bits.[i] = '1' in
-  let cfg = { fx_delref = g 0; fx_hide = g 1; fx_affix = g 2; fx_delmeta = g 3; fx_rencache = g 4;
-              fx_renref = g 5; fx_spec = g 6; fx_parent = g 7; fx_malias = g 8 } in
+  let cfg = { fx_derefclear = g 0; fx_rendup = g 1 } in
   let st = ref init_state in
   try
     while true do
